@@ -254,6 +254,9 @@ fn common_classes(p: &P2Project, n_files: usize) -> BTreeSet<String> {
     if p.root.cfg.strip_comments {
         c.insert("strip_comments".into());
     }
+    if p.extra.iter().filter(|e| e.defines.is_empty()).count() >= 2 {
+        c.insert("two_or_more_alias_only_files".into());
+    }
     if p.excluded_hidden_cycles > 0 {
         c.insert("file_cycle_through_generic_argument_excluded".into());
     }
